@@ -38,8 +38,12 @@ META = dict(
 )
 
 
+LONG = [VALS[(i * 7 + i // 10) % len(VALS)] for i in range(5000)]
+
+
 def series_space(n):
     yield from PRODUCT
+    yield LONG
     for x in alpha.all_seqs(VALS, 0, n):
         yield list(x)
 
